@@ -89,7 +89,7 @@ PROPS = {
         assumptions=['trajectory time index strictly increasing (input precondition)']),
     'C06': dict(
         rules=[meas.meas_guard, meas.meas_dep, meas.meas_shape, meas.meas_cols,
-               meas.meas_jacobian, meas.meas_noise, meas.meas_sim,
+               meas.meas_jacobian, meas.meas_noise, meas.meas_sim, geo.unit_const,
                lambda c: purity.pur_global(c, ('measurements', 'error_model', 'transform',
                                                'earth', 'util'))],
         decided=['no function on the measurement path keeps state in a module/class-level array '
@@ -119,7 +119,7 @@ PROPS = {
         undecided=['bit-identity of floating-point results across chunkings']),
     'C13': dict(
         rules=[integrator.alt_freeze, integrator.es_copy, integrator.es_2drows,
-               meas.meas_shape, meas.meas_noise],
+               meas.meas_shape, meas.meas_noise, kernel.row_rec, errmodel.em_2d],
         decided=['the 2-row noise covariance is the north/east block of the 3-row one',
                  'every writer of the velocity carrier stores vertical velocity zero and altitude '
                  'is copied (constructor, kernel, set_pva)',
@@ -166,7 +166,8 @@ PROPS = {
         assumptions=['pandas >= 3 copy-on-write semantics (measured in this sandbox); calls '
                      'listed under assumed_read_only_calls do not write their arguments']),
     'C18': dict(
-        rules=[diff.diff_orient, diff.diff_sym, diff.wrap_rules, diff.res_rules, geo.unit_const],
+        rules=[diff.diff_orient, diff.diff_sym, diff.wrap_rules, diff.res_rules, geo.unit_const,
+               errmodel.es_perturb, geo.geo_perturb],
         decided=['difference is +first -second on every path, whichever input is denser',
                  'angle reduction maps every real angle into (-180, 180] congruent mod 360 '
                  '(interval proof, array and scalar arms)',
@@ -177,7 +178,8 @@ PROPS = {
     'C14': dict(
         rules=[sensor.sm_names, sensor.sm_count, sensor.sm_accum, sensor.sm_sign, sensor.sm_apply,
                sensor.sm_gate, sensor.sm_table, purity.rng_src, purity.rng_fwd, layout.corr_pair,
-               smmodel.sm_model, smmodel.sm_params, smmodel.sm_draw],
+               smmodel.sm_model, smmodel.sm_params, smmodel.sm_draw, layout.layout_state,
+               layout.layout_noise, layout.layout_prov, layout.assembly, layout.call_roles],
         decided=['the simulator\'s parameter table, executed for a covering family of masks: '
                  'exactly the columns of the non-nominal terms, named and valued as documented',
                  'for a covering family of enable masks (all off/on, each flag alone on and alone '
@@ -207,6 +209,7 @@ PROPS = {
                layout.result_form, lambda c: layout.res_collect(c, (sched.FF,)), layout.assembly,
                lambda c: sched.sched_span(c, (sched.FF,)), lambda c: sched.avg_rate(c, (sched.FF,)),
                lambda c: layout.init_state(c, (sched.FF,)), layout.call_roles,
+               kal.kal_rules, kal.use_after_overwrite, kal.vl_rules, smmodel.sm_model,
                lambda c: interp.interp_rules(c, ('feedforward',))],
         decided=['every measurement sample is fused exactly once (epoch list de-duplicated, cursor pairing, no epoch overtaken: the C10 rules on the feedforward loop)',
                  'the epoch state is the interpolation between the bracketing rows with the elapsed fraction; propagation matrices at the mid-point state',
@@ -228,7 +231,15 @@ PROPS = {
                lambda c: sched.sched_sibling(c, ('feedback', 'feedforward')),
                integrator.last_row, smmodel.sm_model, layout.result_form, layout.res_collect,
                layout.assembly, sched.sched_span, sched.avg_rate, sched.step_bound_fb,
-               sched.step_bound, layout.init_state, layout.call_roles],
+               sched.step_bound, layout.init_state, layout.call_roles, layout.layout_noise,
+               layout.layout_prov, layout.p0_form, layout.rec_order,
+               lambda c: sched.sched_mcursor(c, (sched.FB, sched.FF)),
+               lambda c: sched.sched_no_overtake(c, (sched.FB, sched.FF)),
+               lambda c: sched.sched_pair(c, (sched.FB, sched.FF)),
+               lambda c: sched.sched_progress(c, (sched.FB, sched.FF)),
+               layout.ff_comp, layout.sd_transform, errmodel.es_first, errmodel.es_inv,
+               integrator.buf_rules, integrator.carrier, integrator.carrier_sync,
+               integrator.predict_eff, kal.kal_rules, kal.use_after_overwrite],
         decided=['both filters fuse the same set of measurement samples: same epoch-list stages (merge, de-duplication, clip to [start, end], sentinel) in both loops',
                  'both filters reset both sensor models before any use (re-run reproducibility)',
                  'feedback effects (set_pva, update_estimates, correct) only inside the '
@@ -279,7 +290,7 @@ PROPS = {
     'C04': dict(
         rules=[geo.geo_curv, geo.parity, errmodel.em_linear, errmodel.prop_consist, errmodel.em_2d, errmodel.em_units,
                errmodel.em_frame, errmodel.em_gravgrad, errmodel.es_first, kernel.ker_consist,
-               kernel.sib_grav],
+               kernel.sib_grav, geo.wgs_const],
         decided=['propagate_errors: one-step map consistent with x\' = F x + B_gyro e_g + B_accel e_a, initial error through transform_to_internal of the first row, output through transform_to_output',
                  'F, B_gyro, B_accel equal the symbolic linearisation of the navigation equations '
                  '(assembled from earth.*) in the error coordinates that correct_pva implements: '
@@ -296,7 +307,7 @@ PROPS = {
                    'consistency (propagate_errors: decided; filters: exact Van Loan, C08)']),
     'C03': dict(
         rules=[frames.frame_suffix, simrules.sim_inc, simrules.sim_struct, simrules.sim_kin,
-               simrules.sim_integ],
+               simrules.sim_integ, geo.wgs_const],
         decided=['rate-type readings satisfy the navigation equations assembled from earth.* for an '
                  'arbitrary smooth trajectory (symbolic, splines idealised as exact derivatives; '
                  'position and position+velocity forms); a body at rest senses exactly Earth rate '
@@ -333,6 +344,12 @@ def run(ctx):
             if deferred is None:
                 deferred = e
             ctx.info('ANALYSIS', 'rule not applicable to this code: %s' % e)
+        except (TimeoutError, KeyboardInterrupt):
+            raise
+        except Exception as e:          # noqa: an internal error of one rule: same policy
+            if deferred is None:
+                deferred = AnalysisError('%s: %s' % (type(e).__name__, e))
+            ctx.info('ANALYSIS', 'rule failed on this code: %s: %s' % (type(e).__name__, e))
     from . import expr as _expr
     if 'pyins.util.to_180_range' in _expr.SUMMARY_USED and not any(r['rule'] == 'WRAP-RANGE' for r in ctx.rules_run):
         # a symbolic rule used util.to_180_range through its summary (congruent modulo 360,
